@@ -530,3 +530,34 @@ func runBounded(v *Verifier, ps *PropSpec, tier string, seed int, verifDir strin
 	}
 	return out
 }
+
+// rerunReplay re-executes the command recorded in a replay file.
+func rerunReplay(path string) int {
+	data, err := os.ReadFile(path)
+	if err != nil {
+		fmt.Fprintln(os.Stderr, err)
+		return 2
+	}
+	var rec map[string]any
+	if err := json.Unmarshal(data, &rec); err != nil {
+		fmt.Fprintln(os.Stderr, err)
+		return 2
+	}
+	fmt.Printf("obligation: %v\nstatus: %v\n", rec["obligation"], rec["status"])
+	cmdline, _ := rec["replay_cmd"].(string)
+	if cmdline == "" {
+		fmt.Println("no replay command recorded:", rec["replay"])
+		if s, ok := rec["script"].(string); ok {
+			fmt.Println("solver script:", s)
+		}
+		return 0
+	}
+	cmd := exec.Command("sh", "-c", cmdline)
+	cmd.Env = append(os.Environ(), "GOFLAGS=-mod=mod", "GOPROXY=off", "GOSUMDB=off", "GOTOOLCHAIN=local")
+	out, err := cmd.CombinedOutput()
+	fmt.Print(string(out))
+	if err != nil {
+		return 1
+	}
+	return 0
+}
